@@ -27,7 +27,8 @@ META = {
     "technique": "Lean 4 theorem (first match in a length-sorted table = longest component prefix) + differential correspondence",
     "text": "Lean theorems, for every table and path of any size: the component-comparing lookup returns a longest "
     "component-prefix entry of a table as produced by parse_mount_table (C38_comp_longest), never a string-prefix sibling "
-    "(C38_comp_no_sibling); parse_mount_table's result is sorted longest first (C38_parse_sorted).  The Lean functions are "
+    "(C38_comp_no_sibling); parse_mount_table's result is sorted longest first (C38_parse_sorted), and its CIFS filter "
+    "never changes the answer of on_cifs relative to the full mount table (C38_filter_transparent, C38_parse_transparent).  The Lean functions are "
     "tied to pydra/utils/mount_identifier.py by running get_mount / on_cifs / on_same_mount / parse_mount_table and the "
     "model on generated mount output and paths (sibling prefixes, nested mounts, '.', '//', trailing '/').",
     "note": "Trusted: Lean kernel; hand-written model of get_mount/parse_mount_table (regex itself is exercised, not modelled); "
@@ -51,9 +52,12 @@ OBLIGATIONS = [
         "C38_parse_subset",
         "C38_str_partial",
         "C38_str_witness",
+        "C38_filter_transparent",
+        "C38_parse_transparent",
+        "C38_filter_str_witness",
     )
 ]
-LEAN_TARGETS = ["PydraModel.Props.C38"]
+LEAN_TARGETS = ["PydraModel.Props.C38", "PydraModel.Props.C38b"]
 MODEL_TARGETS = ["PydraModel.Mount.Model", "PydraModel.DriverUtil"]
 
 NAMES = ["data", "data2", "database", "dat", "mnt", "mnt/share", "home", "home/u", "a", "a/b", "a/b/c", "ab", "a b", "x.y", "é"]
@@ -128,7 +132,17 @@ def impl_case(case):
         mp, fs = MI.get_mount(case["path"])
         cifs = MI.on_cifs(case["path"])
         same = MI.on_same_mount(case["path"], case["path2"])
-    return {"table": [list(e) for e in table], "mount": [str(PurePosixPath(mp)), fs], "cifs": bool(cifs), "same": bool(same)}
+    # the unfiltered table, sorted as parse_mount_table sorts it (C38_parse_transparent: same on_cifs answer)
+    full = sorted((tuple(e) for e in case["pairs"]), key=lambda e: len(e[0]), reverse=True)
+    with MI.patch_table(full):
+        cifs_full = MI.on_cifs(case["path"])
+    return {
+        "table": [list(e) for e in table],
+        "mount": [str(PurePosixPath(mp)), fs],
+        "cifs": bool(cifs),
+        "same": bool(same),
+        "cifs_full": bool(cifs_full),
+    }
 
 
 def run_cases(ctx, cases):
@@ -140,10 +154,12 @@ def run_cases(ctx, cases):
         q.append({"op": "parse", "pairs": c["pairs"]})
         q.append({"op": "get_mount", "table": i["table"], "path": c["path"]})
         q.append({"op": "get_mount", "table": i["table"], "path": c["path2"]})
+        full = sorted((list(e) for e in c["pairs"]), key=lambda e: len(e[0]), reverse=True)
+        q.append({"op": "get_mount", "table": full, "path": c["path"]})
     ans = ctx.driver("Mount", q)
     for k, (c, i) in enumerate(zip(cases, impls)):
         if ans is not None:
-            a_parse, a_get, a_get2 = ans[3 * k], ans[3 * k + 1], ans[3 * k + 2]
+            a_parse, a_get, a_get2, a_full = ans[4 * k : 4 * k + 4]
             mp, fs = a_get[LIVE_MODEL]
             mp2 = a_get2[LIVE_MODEL][0]
             model = {
@@ -151,6 +167,7 @@ def run_cases(ctx, cases):
                 "mount": [str(PurePosixPath(mp)), fs],
                 "cifs": fs == "cifs",
                 "same": parts(mp) == parts(mp2),
+                "cifs_full": a_full[LIVE_MODEL][1] == "cifs",
             }
         else:
             model = None
@@ -166,6 +183,9 @@ def run_cases(ctx, cases):
             reverse=True,
         )
         spec_ok = spec_ok and i["table"] == [list(e) for e in want_tbl]
+        # C38_parse_transparent: the CIFS filter never changes the answer of on_cifs
+        spec_ok = spec_ok and i["cifs"] == i["cifs_full"]
+        ctx.count("on_cifs=" + str(i["cifs"]))
         sib = has_string_sibling(i["table"], c["path"]) or any(
             e[0].startswith(cp) and parts(e[0])[: len(parts(cp))] != parts(cp) for e in c["pairs"] for cp in cifs_pts
         )
